@@ -175,7 +175,7 @@ def check(case):
     op, km, mode = case['op'], case['km'], case['mode']
     if op in ('fvariance', 'fstddev') and len(xs) > 300:
         xs = xs[:300]
-    ctx = {k: case[k] for k in ('op', 'km', 'mode', 'data')}
+    ctx = {k: case[k] for k in ('op', 'km', 'mode', 'data', 'w', 'nk') if k in case}
     items = [(x,) for x in xs] if km else list(xs)
     # split among keys for the grouped mode: key = position % nk
     if mode == 'grouped':
@@ -198,6 +198,18 @@ def check(case):
             if not seqs[k]:
                 continue
             per_key.append((seqs[k], ls[k]['items'], lr[k]['items']))
+    elif mode == 'windows':
+        # tumbling windows: the lifetimes follow each other on ONE key index, each is a statistic of its own items
+        w = case.get('w', 3)
+        tail_s, tail_r = [], []
+        for reduce, tail in ((False, tail_s), (True, tail_r)):
+            r = drive.store(items, [rs.data.roll(window=w, stride=w, pipeline=[build(op, reduce, km), drive.tap(tail)])])
+            H.require_clean(r, '%s in tumbling windows reduce=%s' % (op, reduce), **ctx)
+        seqs = [xs[i:i + w] for i in range(0, len(xs), w)]
+        ls, lr = drive.lifetimes_of(tail_s), drive.lifetimes_of(tail_r)
+        if len(ls) != len(seqs) or len(lr) != len(seqs):
+            raise Violation('%d tumbling windows expected, %d / %d lifetimes seen' % (len(seqs), len(ls), len(lr)), **ctx)
+        per_key = [(seqs[j], ls[j]['items'], lr[j]['items']) for j in range(len(seqs))]
     else:
         if op == 'mean' and not xs:
             raise Reject()
@@ -258,10 +270,12 @@ def case_gen(draw, long_max):
         data = {'kind': 'long', 'n': draw(st.sampled_from([10, 100, 300, long_max // 2, long_max])), 'off_m': draw(st.sampled_from([0.0, 1.0, -3.0, 7.25])),
                 'off_e': draw(st.integers(-6, 9)), 'scale_e': draw(st.integers(-13, 6)),
                 'shape': draw(st.sampled_from(['uniform', 'two-point', 'sorted', 'constant', 'alternating'])), 'seed': draw(st.integers(0, 10 ** 6))}
-    mode = draw(st.sampled_from(['plain', 'store', 'grouped']))
+    mode = draw(st.sampled_from(['plain', 'store', 'grouped', 'windows']))
     case = {'data': data, 'op': draw(st.sampled_from(OPS)), 'km': draw(st.booleans()), 'mode': mode}
     if mode == 'grouped':
         case['nk'] = draw(st.integers(2, 3))
+    if mode == 'windows':
+        case['w'] = draw(st.sampled_from([1, 2, 3, 5, 50]))
     return case
 
 
